@@ -16,13 +16,16 @@ package server
 //   state retains KEYS / ARGV / EVAL_CMD / DEADLINE / ID / FIELDS / PROPERTIES.
 
 import (
-	"strconv"
 	"fmt"
+	"os"
+	"path/filepath"
+	"strconv"
 	"reflect"
 	"runtime"
 	"sort"
 	"strings"
 
+	"github.com/tidwall/tile38/internal/vshim/vos"
 	lua "github.com/yuin/gopher-lua"
 )
 
@@ -201,15 +204,21 @@ func checkC18Seq(job *Job, res *Result) {
 						}
 					}
 				}
-				for _, variant := range []string{"EVAL", "EVALNA", "EVALSHA"} {
+				for _, variant := range []string{"EVAL", "EVALNA", "EVALSHA", "EVAL+error", "EVALNA+error", "EVALSHA+error"} {
 					if shortTTL {
 						break
 					}
+					variant, fails := strings.TrimSuffix(variant, "+error"), strings.HasSuffix(variant, "+error")
 					x := runExec(job, freezeAllBut(), func(x *Exec) {
 						in := x.Start("L", x.dir+"/L", 9001, nil)
 						c := x.Dial(in.Addr)
 						sha := catSetup(c)
 						script := luaCall(fn, catSubst(shape, sha))
+						if fails {
+							// the script fails after its write: nothing is rolled back, so the
+							// write stays visible - and has to be in the log like any other
+							script = strings.TrimPrefix(script, "return ") + " error('failing after the write')"
+						}
 						if variant == "EVALSHA" {
 							c.Do("EVALSHA", c.Do("SCRIPT", "LOAD", script).S, "0")
 						} else {
@@ -226,7 +235,7 @@ func checkC18Seq(job *Job, res *Result) {
 						c2 := x.Dial(in2.Addr)
 						if again := fullDump(c2); again != live {
 							res.Violate(fmt.Sprintf("C18/script-write-not-reproduced-by-restart:%s:%s", strings.ToLower(name), strings.ToLower(variant)),
-								fmt.Sprintf("%s with tile38.%s(%v): state before the restart %s, after %s", variant, fn, shape, vclip(live, 300), vclip(again, 300)), map[string]any{"cmd": shape, "variant": variant, "fn": fn})
+								fmt.Sprintf("%s with tile38.%s(%v) (script failing afterwards: %v): state before the restart %s, after %s", variant, fn, shape, fails, vclip(live, 300), vclip(again, 300)), map[string]any{"cmd": shape, "variant": variant, "fn": fn, "fails": fails})
 						}
 					})
 					if x.Err != "" {
@@ -282,6 +291,64 @@ func checkC18Seq(job *Job, res *Result) {
 		}
 	}
 	res.States += len(names)
+	if job.Shard == 0 {
+		c18CrashAtomic(job, res)
+	}
+}
+
+// c18CrashAtomic: an atomic script's writes reach the log file as one piece. The file
+// operations of a script making 300 writes (> 10 kB of log) are recorded; the server is
+// started on the directory image after EVERY prefix of them: it holds either none of
+// the script's writes or all of them (what a crash, or a follower reading the file
+// while the script runs, would see).
+func c18CrashAtomic(job *Job, res *Result) {
+	for _, variant := range []string{"EVAL", "EVALSHA"} {
+		variant := variant
+		x := runExec(job, freezeAllBut(), func(x *Exec) {
+			dir := x.dir + "/L"
+			in := x.Start("L", dir, 9001, nil)
+			c := x.Dial(in.Addr)
+			aof := filepath.Clean(filepath.Join(dir, "appendonly.aof"))
+			c.Do("SET", "k", "seed", "STRING", "s")
+			script := "for i=1,300 do tile38.call('SET','k','id'..i,'STRING',string.rep('x',40)) end return 1"
+			sha := c.Do("SCRIPT", "LOAD", script).S
+			k0 := len(vos.Log)
+			if variant == "EVAL" {
+				c.Do("EVAL", script, "0")
+			} else {
+				c.Do("EVALSHA", sha, "0")
+			}
+			k1 := len(vos.Log)
+			c.Close()
+			in.Stop()
+			for n := k0; n <= k1; n++ {
+				img := vos.Image(n)[aof]
+				rdir := fmt.Sprintf("%s/R%d", x.dir, n)
+				os.MkdirAll(rdir, 0700)
+				os.WriteFile(filepath.Join(rdir, "appendonly.aof"), img, 0600)
+				r, err := x.TryStart(fmt.Sprintf("R%d", n), rdir, 9100+n-k0, nil)
+				if err != nil {
+					res.Violate("C18/crash-mid-script:restart-fails", fmt.Sprintf("%s: the log as it is after %d of the %d file operations of the script does not load: %v", variant, n-k0, k1-k0, err), map[string]any{"variant": variant})
+					return
+				}
+				rc := x.Dial(r.Addr)
+				cnt := rc.Do("SCAN", "k", "COUNT").String()
+				res.Evaluations++
+				res.Transitions++
+				res.Validated++
+				res.DistinctS("crash-atomic:" + variant + cnt)
+				if cnt != ":1" && cnt != ":301" {
+					res.Violate("C18/crash-mid-script:half-a-script-in-the-log", fmt.Sprintf("%s of a script making 300 writes: after %d of its %d file operations the log holds %s objects (1 = none of the script, 301 = all of it)", variant, n-k0, k1-k0, cnt), map[string]any{"variant": variant, "op": n - k0})
+				}
+				rc.Close()
+				r.Stop()
+			}
+		})
+		if x.Err != "" {
+			res.EngineError = x.Err
+			return
+		}
+	}
 }
 
 // ---- sandbox
